@@ -161,7 +161,7 @@ func (b *BigU32) RGetNAsI64(n int) []int64 {
 // return:
 // actually iter count
 func (b *BigU32) IterAsI64(s []int64, pos int, n int) int {
-	return b.B1024.IterAsI64(s, pos, int64(b.Start*C1K), n)
+	return b.B1024.IterAsI64(s, pos, int64(b.Start)*C1K, n)
 }
 
 // RIterAsI64 : reverse iterate bitmap
@@ -169,7 +169,7 @@ func (b *BigU32) IterAsI64(s []int64, pos int, n int) int {
 // return:
 // actually iter count
 func (b *BigU32) RIterAsI64(s []int64, pos int, n int) int {
-	return b.B1024.RIterAsI64(s, pos, int64(b.Start*C1K), n)
+	return b.B1024.RIterAsI64(s, pos, int64(b.Start)*C1K, n)
 }
 
 // getNAsI64 : iterate bitmap
